@@ -475,8 +475,20 @@ def s02_2_what_is_hashed(ctx, P):
                 for s in blk['s']:
                     for pl in places_of(s):
                         toks.update(e for e in pl['pr'] if e.startswith('.'))
-        ctx.check('%s:S02-2:no-unhashed:%s' % (P, path), 'R-who', '%s does not read the unhashed subpacket area' % path.split('::')[-1],
-                  not any('unhashed_subpackets' in t for t in toks), function=path)
+        # reading the unhashed area to CHECK it (issuer fingerprint version) is fine; nothing read from it may reach the hasher, the
+        # buffer that is hashed or the length that is returned
+        leak = None
+        if any('unhashed_subpackets' in t for t in toks):
+            bodies = [b] + [ctx.wrap(c) for c in ctx.f.closures_of(path)]
+            for xb in bodies:
+                for i, t in xb.calls(r'DynDigest::update$|Serialize::to_writer$|::extend$|::extend_from_slice$|::push$|Write::write_all$|io::Write::write$|::append$|::insert$|iter::Extend'):
+                    if any(has_origin(xb.operand_origins(a), r'field:SignatureConfig\.unhashed_subpackets$|call:.*SignatureConfig::unhashed_subpackets$') for a in t['args']):
+                        leak = site(xb, i)
+                for i in xb.returns():
+                    pass
+        ctx.check('%s:S02-2:no-unhashed:%s' % (P, path), 'R-who', '%s feeds nothing from the unhashed subpacket area to the hasher or the hashed buffer' % path.split('::')[-1],
+                  leak is None, function=path, site=leak,
+                  missing=None if leak is None else 'data read from the unhashed area reaches a hasher / buffer write at %s' % leak)
     b = ctx.body(CFG + 'SignatureConfig::hash_signature_data')
     if b is not None:
         ctx.check(P + ':S02-2:hashed-area-read', 'R-who', 'hash_signature_data reads the hashed subpacket area, type, algorithms',
